@@ -4,16 +4,31 @@
 #include "tuple_intersection.hpp"
 #include "tuple_a_not_b.hpp"
 using namespace datasketches;
-struct comb_policy {   // summary' = 3 * summary + other: the order in which inputs meet is observable
-  void operator()(uint32_t& summary, const uint32_t& other) const { summary = summary * 3u + other; }
+#ifdef SUMMARY_MOVE
+// summary type with REAL move semantics: a moved-from summary is visibly clobbered (as a moved-from std::vector / std::string / array<double> is)
+struct msum {
+  uint32_t v;
+  msum(uint32_t x = 0): v(x) {}
+  msum(const msum& o): v(o.v) {}
+  msum(msum&& o) noexcept: v(o.v) { o.v = 0xDEADBEEFu; }
+  msum& operator=(const msum& o) { v = o.v; return *this; }
+  msum& operator=(msum&& o) noexcept { v = o.v; if (&o != this) o.v = 0xDEADBEEFu; return *this; }
+  operator uint32_t() const { return v; }
 };
-typedef compact_tuple_sketch<uint32_t> cts;
-typedef tuple_union<uint32_t, comb_policy> tun;
-typedef tuple_intersection<uint32_t, comb_policy> tin;
-typedef tuple_a_not_b<uint32_t> anb;
+typedef msum SUM;
+#else
+typedef uint32_t SUM;
+#endif
+struct comb_policy {   // summary' = 3 * summary + other: the order in which inputs meet is observable
+  void operator()(SUM& summary, const SUM& other) const { summary = SUM((uint32_t)summary * 3u + (uint32_t)other); }
+};
+typedef compact_tuple_sketch<SUM> cts;
+typedef tuple_union<SUM, comb_policy> tun;
+typedef tuple_intersection<SUM, comb_policy> tin;
+typedef tuple_a_not_b<SUM> anb;
 WRAP uint16_t w_seed_hash(uint64_t seed) { return compute_seed_hash(seed); }
 WRAP cts* w_ctup_make(uint8_t is_empty, uint8_t is_ordered, uint16_t seed_hash, uint64_t theta, const uint64_t* keys, const uint32_t* sums, uint32_t n) {
-  std::vector<std::pair<uint64_t, uint32_t>> v; v.reserve(n); for (uint32_t i = 0; i < n; i++) v.push_back(std::pair<uint64_t, uint32_t>(keys[i], sums[i]));
+  std::vector<std::pair<uint64_t, SUM>> v; v.reserve(n); for (uint32_t i = 0; i < n; i++) v.push_back(std::pair<uint64_t, SUM>(keys[i], SUM(sums[i])));
   return new cts(is_empty, is_ordered, seed_hash, theta, std::move(v));
 }
 WRAP void w_ctup_delete(cts* c) { delete c; }
@@ -23,9 +38,9 @@ WRAP uint8_t w_ctup_is_empty(const cts* c) { return c->is_empty(); }
 WRAP uint8_t w_ctup_is_ordered(const cts* c) { return c->is_ordered(); }
 WRAP uint16_t w_ctup_seed_hash(const cts* c) { return c->get_seed_hash(); }
 WRAP uint64_t w_ctup_key(const cts* c, uint32_t i) { return c->entries_[i].first; }
-WRAP uint32_t w_ctup_summary(const cts* c, uint32_t i) { return c->entries_[i].second; }
+WRAP uint32_t w_ctup_summary(const cts* c, uint32_t i) { return (uint32_t)c->entries_[i].second; }
 // union at the unit level (private constructor: table of 2^lg_cur slots, nominal size 2^lg_nom)
-WRAP tun* w_ttu_new_unit(uint8_t lg_cur, uint8_t lg_nom, uint64_t theta, uint64_t seed) { return new tun(lg_cur, lg_nom, resize_factor::X1, 1.0f, theta, seed, comb_policy(), std::allocator<uint32_t>()); }
+WRAP tun* w_ttu_new_unit(uint8_t lg_cur, uint8_t lg_nom, uint64_t theta, uint64_t seed) { return new tun(lg_cur, lg_nom, resize_factor::X1, 1.0f, theta, seed, comb_policy(), std::allocator<SUM>()); }
 WRAP void w_ttu_delete(tun* u) { delete u; }
 WRAP int w_ttu_update(tun* u, const cts* s) { try { u->update(*s); return 0; } catch (...) { return 1; } }
 WRAP cts* w_ttu_result(const tun* u, uint8_t ordered) { try { return new cts(u->get_result(ordered)); } catch (...) { return nullptr; } }
